@@ -139,6 +139,13 @@ class _Canon(ast.NodeTransformer):
         # x.sum() == sum(x) (np.sum) and the other argument-free reductions: one spelling
         if isinstance(f, ast.Attribute) and f.attr in ("sum", "argmax", "argmin", "any", "all", "cumsum", "mean", "prod") and not node.args and not node.keywords and not (isinstance(f.value, ast.Name) and f.value.id in ("np", "numpy", "torch", "math")):
             return ast.Call(func=ast.Name(id=f.attr, ctx=ast.Load()), args=[f.value], keywords=[])
+        # x.flatten() == x.ravel() == ravel(x) (same values, 1-d)
+        if isinstance(f, ast.Attribute) and f.attr in ("flatten", "ravel") and not node.args and not node.keywords and not (isinstance(f.value, ast.Name) and f.value.id in ("np", "numpy")):
+            return ast.Call(func=ast.Name(id="ravel", ctx=ast.Load()), args=[f.value], keywords=[])
+        # split(x, <sequence of indices>) == array_split(x, <the same sequence>)
+        if name == "split" and len(node.args) == 2 and not node.keywords and (isinstance(node.args[1], (ast.List, ast.Tuple)) or (isinstance(node.args[1], ast.Call) and isinstance(node.args[1].func, ast.Name) and node.args[1].func.id in ("range", "arange"))) and not isinstance(f, ast.Attribute) or (name == "split" and isinstance(f, ast.Name) and len(node.args) == 2 and isinstance(node.args[1], ast.Call) and isinstance(node.args[1].func, ast.Name) and node.args[1].func.id in ("range", "arange")):
+            node.func = ast.Name(id="array_split", ctx=ast.Load())
+            return node
         # delete(x, s_[:n]) == x[n:]
         if name == "delete" and len(node.args) == 2 and not node.keywords and isinstance(node.args[1], ast.Subscript) and isinstance(node.args[1].value, ast.Name) and node.args[1].value.id == "s_" and isinstance(node.args[1].slice, ast.Slice) and node.args[1].slice.lower is None and node.args[1].slice.step is None and node.args[1].slice.upper is not None:
             return ast.Subscript(value=node.args[0], slice=ast.Slice(lower=node.args[1].slice.upper, upper=None, step=None), ctx=ast.Load())
@@ -178,6 +185,14 @@ class _Canon(ast.NodeTransformer):
                 return ast.Call(func=v.func, args=[sl.upper], keywords=[])
             if sl.upper is None and sl.lower is not None:
                 return ast.Call(func=v.func, args=[sl.lower, v.args[0]], keywords=[])
+        return node
+
+    def visit_ListComp(self, node):
+        self.generic_visit(node)
+        # [f(v) for v in X] == list(map(f, X))
+        if len(node.generators) == 1 and not node.generators[0].ifs and isinstance(node.generators[0].target, ast.Name) and isinstance(node.elt, ast.Call) and len(node.elt.args) == 1 and not node.elt.keywords \
+                and isinstance(node.elt.args[0], ast.Name) and node.elt.args[0].id == node.generators[0].target.id and not any(isinstance(x, ast.Name) and x.id == node.generators[0].target.id for x in ast.walk(node.elt.func)):
+            return ast.Call(func=ast.Name(id="list", ctx=ast.Load()), args=[ast.Call(func=ast.Name(id="map", ctx=ast.Load()), args=[node.elt.func, node.generators[0].iter], keywords=[])], keywords=[])
         return node
 
     def visit_JoinedStr(self, node):
